@@ -219,6 +219,11 @@ def x12n_document(param, src_file, fd_997, fd_html,
                     err_node_list.append(err_node)
                 except pyx12.errors.IterOutOfBounds:
                     break
+            # the error cursor only comes back to a set, group or interchange node from one of its
+            # children: without any, the errors found on the trailer itself would not be shown
+            own = {'SE': errh.cur_st_node, 'GE': errh.cur_gs_node, 'IEA': errh.cur_isa_node}.get(seg.get_seg_id())
+            if own is not None and own not in err_node_list:
+                err_node_list.append(own)
             html.gen_seg(seg, src, err_node_list)
 
         if fd_xmldoc:
